@@ -49,6 +49,12 @@ CONFIGS = {
     'one-pr': ({'prs': (1,)}, ROOTS1, {'quick': 6, 'thorough': 8}),
     # GitHub webhooks delivered instantly (atomically with the change that causes them); batch callbacks still lag
     'two-prs-prompt-webhooks': ({'prs': (1, 2), 'prompt_hooks': True}, ROOTS2, {'quick': 4, 'thorough': 5}),
+    # many status contexts on the head commit: the rollup spans 2 (3) GraphQL pages of 10; the contexts that change
+    # sit at the start of page 1, the end of page 1 and beyond it.  Only status flips, deliveries, batch results, ticks.
+    'paged-checks-11': ({'prs': (1,), 'n_ext': 11, 'flip': (0, 9, 10), 'ext': 'sf', 'knobs': ()}, ROOTS1,
+                        {'quick': 5, 'thorough': 7}),
+    'paged-checks-21': ({'prs': (1,), 'n_ext': 21, 'flip': (0, 10, 20), 'ext': 'sfp', 'knobs': ()}, ROOTS1,
+                        {'quick': None, 'thorough': 6}),
 }
 STATE_CAP = 3_000_000
 
@@ -98,7 +104,7 @@ def _expand_chunk(items):
         for ev in s.enabled():
             n_trans += 1
             h2 = f'{hist},{cw.enc(ev)}' if hist else cw.enc(ev)
-            if ev[0] in cw.Sys.WORLD_EVENTS and (ev[0] in ('ext', 'batch') or not s.world.cfg['prompt_hooks']):
+            if ev[0] in cw.Sys.WORLD_EVENTS and (ev[0] in ('ext', 'extk', 'batch') or not s.world.cfg['prompt_hooks']):
                 # a pure world event: the CI objects are not touched, so apply / read / undo in place
                 snap = s.world.snapshot()
                 v, c, merged = s.apply(ev)
@@ -258,7 +264,8 @@ def check(tier, seed, procs):
         gc.freeze()  # workers must not copy-on-write the parent's heap when their collector runs
         pool = mp.get_context('fork').Pool(procs)
     try:
-        results = {name: _bfs(cfg, roots, depths[tier], seed, procs, pool) for name, (cfg, roots, depths) in CONFIGS.items()}
+        results = {name: _bfs(cfg, roots, depths[tier], seed, procs, pool)
+                   for name, (cfg, roots, depths) in CONFIGS.items() if depths[tier] is not None}
     finally:
         if pool is not None:
             pool.terminate()
@@ -266,6 +273,8 @@ def check(tier, seed, procs):
             gc.unfreeze()
     for name, (cfg, roots, depths) in CONFIGS.items():
         depth = depths[tier]
+        if depth is None:
+            continue
         n, tr, c, v, sm, levels, cap = results[name]
         states += n
         transitions += tr
@@ -304,13 +313,14 @@ def check(tier, seed, procs):
         'exhaustive': not capped,
         'bounds': '; '.join(
             f'{name}: PRs {list(CONFIGS[name][0]["prs"])} x 2 head shas, <= {cw.MAX_TARGET_MOVES} external target moves, '
-            f'1 external status context, every history of <= {per_cfg[name]["depth"]} events after each of the roots '
-            f'{per_cfg[name]["roots"]}' for name in CONFIGS),
+            f'{CONFIGS[name][0].get("n_ext", 1)} external status context(s), every history of <= {per_cfg[name]["depth"]} '
+            f'events after each of the roots {per_cfg[name]["roots"]}' for name in per_cfg),
         'configurations': per_cfg,
         'merges_judged': merges,
         'merges_with_every_clause_true': counters.get('merges_clean', 0),
         'merge_puts': counters.get('merge_puts', 0),
         'merge_puts_rejected_stale_head_409': counters.get('merge_rejected_409_head_moved', 0),
+        'graphql_rollup_pages_beyond_first': counters.get('graphql_pages_beyond_first', 0),
         'ci_update_passes': counters.get('ticks', 0) + counters.get('batch_callbacks', 0)
         + sum(x for k, x in counters.items() if k.startswith('webhooks_')),
         'counters': dict(sorted(counters.items())),
@@ -321,6 +331,8 @@ def check(tier, seed, procs):
         vac = f'no (clean) merge was ever performed ({merges=})'
     elif counters.get('builds_started', 0) == 0 or counters.get('batch_callbacks', 0) == 0:
         vac = 'no test batch was started / no batch callback delivered'
+    elif counters.get('graphql_pages_beyond_first', 0) == 0:
+        vac = 'the status rollup never needed a second GraphQL page'
     return {
         'coverage': cov,
         'violations': violations,
